@@ -60,6 +60,13 @@ Proof.
   - rewrite Pos.iter_succ. cbn [digits2_pos]. rewrite IHk. lia.
 Qed.
 
+Lemma digits_le_53 p : Z.pos p < 9007199254740992 -> Z.pos (digits2_pos p) <= 53.
+Proof.
+  intros Hp. pose proof (digits_bounds p) as [Hlo Hhi].
+  assert (Z.pos (digits2_pos p) - 1 < 53) as H; [|lia].
+  apply pow2_lt_inv; [lia|lia|]. change (2 ^ 53) with 9007199254740992. lia.
+Qed.
+
 (** mantissa and exponent of the canonical representation of a positive integer of at most
     53 bits *)
 Definition small_repr (p : positive) : positive * Z :=
@@ -71,10 +78,7 @@ Definition small_repr (p : positive) : positive * Z :=
 Lemma small_repr_bounded p : Z.pos p < 9007199254740992 ->
   bounded prec emax (fst (small_repr p)) (snd (small_repr p)) = true.
 Proof.
-  intros Hp. pose proof (digits_bounds p) as [Hlo Hhi].
-  assert (Z.pos (digits2_pos p) <= 53) as Hd.
-  { assert (Z.pos (digits2_pos p) - 1 < 53); [|lia].
-    apply pow2_lt_inv; try lia. change (2 ^ 53) with 9007199254740992. lia. }
+  intros Hp. pose proof (digits_le_53 p Hp) as Hd.
   unfold small_repr. apply bounded_spec.
   destruct (53 - Z.pos (digits2_pos p)) as [|k|k] eqn:E; cbn [fst snd].
   - lia.
@@ -86,10 +90,7 @@ Lemma binary_round_small s p : Z.pos p < 9007199254740992 ->
   SpecFloat.binary_round prec emax s p 0 = S754_finite s (fst (small_repr p)) (snd (small_repr p)).
 Proof.
   intros Hp. pose proof (small_repr_bounded p Hp) as Hb.
-  pose proof (digits_bounds p) as [Hlo Hhi].
-  assert (Z.pos (digits2_pos p) <= 53) as Hd.
-  { assert (Z.pos (digits2_pos p) - 1 < 53); [|lia].
-    apply pow2_lt_inv; try lia. change (2 ^ 53) with 9007199254740992. lia. }
+  pose proof (digits_le_53 p Hp) as Hd.
   assert (SpecFloat.binary_round prec emax s p 0 =
           SpecFloat.binary_round_aux prec emax s (Z.pos (fst (small_repr p))) (snd (small_repr p)) loc_Exact) as ->.
   { unfold SpecFloat.binary_round, shl_align, SpecFloat.fexp, SpecFloat.emin, small_repr, prec, emax.
@@ -126,7 +127,7 @@ Proof.
   destruct (53 - Z.pos (digits2_pos p)) as [|k|k] eqn:E; cbn [fst snd].
   - cbn. lia.
   - replace (0 <=? - Z.pos k) with false by lia.
-    rewrite shift_pos_correct, Zpower_pos_is_exp_pos_aux.
+    rewrite shift_pos_correct. change (Zpower_pos 2 k) with (2 ^ Z.pos k).
     rewrite Z.opp_involutive, Z.mul_comm. apply Z.div_mul. apply Z.pow_nonzero; lia.
   - cbn. lia.
 Qed.
